@@ -229,8 +229,8 @@ Ltac inj3 E :=
   apply pair_equal_spec in E; destruct E as [E1 E3];
   apply pair_equal_spec in E1; destruct E1 as [E1 E2].
 
-Ltac simp_in_all := cbn [i_uni i_streams i_nextAccept i_nextOpen i_max i_maxNum i_closed in_set_streams fst snd] in *.
-Ltac simp_in := cbn [i_uni i_streams i_nextAccept i_nextOpen i_max i_maxNum i_closed in_set_streams fst snd].
+Ltac simp_in_all := cbn [i_uni i_streams i_nextAccept i_nextOpen i_max i_maxNum i_closed i_parked in_set_streams in_set_parked fst snd] in *.
+Ltac simp_in := cbn [i_uni i_streams i_nextAccept i_nextOpen i_max i_maxNum i_closed i_parked in_set_streams in_set_parked fst snd].
 
 Lemma first_incoming_range : forall uni client, 0 <= first_incoming uni client <= 3.
 Proof. intros [] []; cbv; split; discriminate. Qed.
@@ -325,7 +325,7 @@ Proof.
   - assert (Len : zlen (del id (i_streams m)) = zlen (i_streams m) - 1) by (eapply zlen_del; eauto).
     assert (Inv' : forall mx M', ((mx = f + 4 * (M' - 1) /\ 1 <= M') \/ (mx = -1 /\ M' = 0)) -> o <= M' ->
               M' - o + zlen (del id (i_streams m)) <= N ->
-              InvIn f N (mkIn (i_uni m) (del id (i_streams m)) (i_nextAccept m) (i_nextOpen m) mx (i_maxNum m) (i_closed m)) a o M').
+              InvIn f N (mkIn (i_uni m) (del id (i_streams m)) (i_nextAccept m) (i_nextOpen m) mx (i_maxNum m) (i_closed m) (i_parked m)) a o M').
     { intros mx M' H1 H2 H3. unfold InvIn; simp_in. repeat split; auto; try lia.
       - apply del_sorted; assumption.
       - intros k Hin. apply keys_del in Hin. auto.
@@ -367,8 +367,8 @@ Definition frames_ok (uni : bool) (M M' : Z) (fr : list frame) (len len' : Z) : 
   (fr = [] /\ M' = M) \/
   (fr = [FMax uni M'] /\ M < M' /\ M' <= SM_MaxStreamCount /\ len' = len - 1).
 
-Lemma in_accept_inv : forall f N m m' r fr a o M, 0 <= f <= 3 ->
-  InvIn f N m a o M -> in_accept m = (m', r, fr) ->
+Lemma in_accept_core_inv : forall f N m m' r fr a o M, 0 <= f <= 3 ->
+  InvIn f N m a o M -> in_accept_core m = (m', r, fr) ->
   exists a' M', InvIn f N m' a' o M' /\ a <= a' /\ M <= M' /\
     frames_ok (i_uni m) M M' fr (zlen (i_streams m)) (zlen (i_streams m')) /\
     zlen (i_streams m') <= zlen (i_streams m) /\ i_uni m' = i_uni m /\
@@ -377,7 +377,7 @@ Lemma in_accept_inv : forall f N m m' r fr a o M, 0 <= f <= 3 ->
                             \/ exists e, r = RErr e /\ i_closed m = Some e))).
 Proof.
   intros f N m m' r fr a o M Hf I E.
-  unfold in_accept in E.
+  unfold in_accept_core in E.
   destruct (i_closed m) as [e|] eqn:Cl.
   { inj3 E; subst m' r fr. exists a, M.
     split; [exact I|]. split; [lia|]. split; [lia|]. split; [left; split; reflexivity|].
@@ -391,7 +391,7 @@ Proof.
   pose proof I as (IN & IA & IO & Hao & HoM & HM & Hcred & Hs & Hk & Hpres).
   assert (Hlt : a < o).
   { apply lookup_some_keys in L. destruct (Hk _ L) as (j & Ej & Hj). lia. }
-  set (m1 := mkIn (i_uni m) (i_streams m) (i_nextAccept m + 4) (i_nextOpen m) (i_max m) (i_maxNum m) None) in *.
+  set (m1 := mkIn (i_uni m) (i_streams m) (i_nextAccept m + 4) (i_nextOpen m) (i_max m) (i_maxNum m) None (i_parked m)) in *.
   assert (I1 : InvIn f N m1 (a + 1) o M).
   { unfold InvIn, m1; simp_in. repeat split; auto; try lia. intros j Hj. apply Hpres. lia. }
   destruct sd.
@@ -412,6 +412,30 @@ Proof.
     left. repeat split; auto.
 Qed.
 
+Lemma InvIn_parked : forall f N m l a o M, InvIn f N m a o M -> InvIn f N (in_set_parked m l) a o M.
+Proof. intros f N m l a o M H. exact H. Qed.
+
+(** the loop body executed by caller [c]: the set of parked callers is the only other change *)
+Lemma in_accept_inv : forall f N m c m' r fr a o M, 0 <= f <= 3 ->
+  InvIn f N m a o M -> in_accept m c = (m', r, fr) ->
+  exists a' M', InvIn f N m' a' o M' /\ a <= a' /\ M <= M' /\
+    frames_ok (i_uni m) M M' fr (zlen (i_streams m)) (zlen (i_streams m')) /\
+    zlen (i_streams m') <= zlen (i_streams m) /\ i_uni m' = i_uni m /\
+    ((r = RId (i_nextAccept m) /\ i_nextAccept m' = i_nextAccept m + 4 /\ i_closed m = None) \/
+     (i_nextAccept m' = i_nextAccept m /\ i_streams m' = i_streams m /\ fr = [] /\
+      (r = RParked /\ i_closed m = None /\ lookup (i_nextAccept m) (i_streams m) = None
+       \/ exists e, r = RErr e /\ i_closed m = Some e))).
+Proof.
+  intros f N m c m' r fr a o M Hf I E. unfold in_accept in E.
+  destruct (in_accept_core m) as [[m1 r1] fr1] eqn:C. inj3 E. subst r1 fr1.
+  destruct (in_accept_core_inv _ _ _ _ _ _ _ _ _ Hf I C) as (a' & M' & I' & Ha & HM & Hfr & Hlen & Hun & Hacc).
+  exists a', M'. subst m'. simp_in.
+  split; [apply InvIn_parked; exact I'|]. split; [exact Ha|]. split; [exact HM|].
+  split; [exact Hfr|]. split; [exact Hlen|]. split; [exact Hun|].
+  destruct Hacc as [Hacc|(Hm & Hf0 & Hrest)]; [left; exact Hacc|right].
+  subst m1. repeat split; auto.
+Qed.
+
 Lemma in_close_inv : forall f N m e a o M, InvIn f N m a o M -> InvIn f N (in_close m e) a o M.
 Proof. intros f N m e a o M I. exact I. Qed.
 
@@ -430,7 +454,7 @@ Proof.
 Qed.
 
 Definition is_accept_success (op : iop) (r : res) : bool :=
-  match op, r with IAccept, RId _ => true | _, _ => false end.
+  match op, r with IAccept _, RId _ => true | _, _ => false end.
 
 (** one step of the incoming map *)
 Lemma istep_inv : forall f N m op m' r fr a o M, 0 <= f <= 3 ->
@@ -441,7 +465,7 @@ Lemma istep_inv : forall f N m op m' r fr a o M, 0 <= f <= 3 ->
      else i_nextAccept m' = i_nextAccept m).
 Proof.
   intros f N m op m' r fr a o M Hf I Hok E.
-  destruct op as [id|id| |e]; cbn [istep iop_ok is_accept_success] in *.
+  destruct op as [id|id|c|c|e]; cbn [istep iop_ok is_accept_success] in *.
   - destruct (in_get_or_open m id) as [m1 r1] eqn:G. inj3 E; subst m' r fr.
     destruct (in_get_or_open_inv _ _ _ _ _ _ _ _ _ Hf I Hok G) as (o' & I' & Ho & Hu & _ & Hna & _).
     exists a, o', M. split; [exact I'|]. repeat split; auto; try lia; try (left; split; reflexivity).
@@ -449,9 +473,11 @@ Proof.
     destruct (in_delete_inner_inv _ _ _ _ _ _ _ _ _ _ Hf I D) as (M' & I' & HMM & Hfr & Hlen & Hna & Hun).
     exists a, o, M'. split; [exact I'|]. repeat split; auto; try lia.
     destruct Hfr as [[F1 F2]|(F1 & F2 & F3 & F4 & _)]; [left|right]; repeat split; auto; try lia.
-  - destruct (in_accept_inv _ _ _ _ _ _ _ _ _ Hf I E) as (a' & M' & I' & Ha & HMM & Hfr & _ & Hun & Hacc).
+  - destruct (in_accept_inv _ _ _ _ _ _ _ _ _ _ Hf I E) as (a' & M' & I' & Ha & HMM & Hfr & _ & Hun & Hacc).
     exists a', o, M'. split; [exact I'|]. repeat split; auto; try lia.
-    destruct Hacc as [(R1 & R2 & _)|(R1 & _ & [(R2 & _)|(e & R2 & _)])]; subst r; cbn; auto; subst m'; reflexivity.
+    destruct Hacc as [(R1 & R2 & _)|(R1 & _ & _ & [(R2 & _)|(e & R2 & _)])]; subst r; cbn; auto.
+  - unfold in_accept_cancel in E. destruct (zmem c (i_parked m)); inj3 E; subst m' r fr;
+      exists a, o, M; (split; [exact I|]); repeat split; auto; try lia; try (left; split; reflexivity).
   - inj3 E; subst m' r fr. exists a, o, M. split; [exact I|]. repeat split; auto; try lia; try (left; split; reflexivity).
 Qed.
 
@@ -616,12 +642,12 @@ Qed.
     also when it was completed (deleted) before being accepted *)
 Lemma in_accept_available : forall f N m, 0 <= f <= 3 -> inv_in f N m ->
   i_closed m = None -> i_nextAccept m < i_nextOpen m ->
-  snd (fst (in_accept m)) = RId (i_nextAccept m).
+  forall c, snd (fst (in_accept m c)) = RId (i_nextAccept m).
 Proof.
-  intros f N m Hf (a & o & M & I) Hc Hlt.
-  destruct (in_accept m) as [[m' r] fr] eqn:E. cbn [fst snd].
-  destruct (in_accept_inv _ _ _ _ _ _ _ _ _ Hf I E) as (a' & M' & _ & _ & _ & _ & _ & _ & Hacc).
-  destruct Hacc as [(R1 & _)|(_ & _ & [(_ & _ & R2)|(e & _ & R2)])]; [exact R1| |congruence].
+  intros f N m Hf (a & o & M & I) Hc Hlt c.
+  destruct (in_accept m c) as [[m' r] fr] eqn:E. cbn [fst snd].
+  destruct (in_accept_inv _ _ _ _ _ _ _ _ _ _ Hf I E) as (a' & M' & _ & _ & _ & _ & _ & _ & Hacc).
+  destruct Hacc as [(R1 & _)|(_ & _ & _ & [(_ & _ & R2)|(e & _ & R2)])]; [exact R1| |congruence].
   exfalso. destruct I as (_ & IA & IO & _ & _ & _ & _ & _ & _ & Hpres).
   apply (Hpres a); [lia|]. rewrite <- IA. exact R2.
 Qed.
@@ -631,7 +657,7 @@ Qed.
 Lemma in_frame_only_on_removal : forall f N m op m' r fr, 0 <= f <= 3 -> inv_in f N m -> iop_ok f op ->
   istep m op = (m', r, fr) -> fr <> [] ->
   zlen (i_streams m') = zlen (i_streams m) - 1 /\
-  (exists id, (op = IDelete id \/ op = IAccept /\ r = RId id) /\ id < i_nextAccept m' /\
+  (exists id, (op = IDelete id \/ (exists c, op = IAccept c) /\ r = RId id) /\ id < i_nextAccept m' /\
               lookup id (i_streams m) <> None /\ lookup id (i_streams m') = None) /\
   exists n, fr = [FMax (i_uni m) n] /\ in_adv m < n /\ n = in_adv m' /\ n <= SM_MaxStreamCount.
 Proof.
@@ -640,7 +666,7 @@ Proof.
   destruct (in_adv_inv _ _ _ _ _ _ Hf I) as [A _]. destruct (in_adv_inv _ _ _ _ _ _ Hf I') as [A' _].
   destruct Hf' as [[F1 _]|(F1 & F2 & F3 & F4)]; [contradiction|].
   split; [exact F4|]. split; [|exists M'; rewrite A, A'; repeat split; auto].
-  destruct op as [id|id| |e]; cbn [istep] in E.
+  destruct op as [id|id|c|c|e]; cbn [istep] in E.
   - destruct (in_get_or_open m id). inj3 E. congruence.
   - exists id. unfold in_delete in E. destruct (in_delete_inner m id) as [[m1 ok] fr1] eqn:D. inj3 E; subst m' r fr.
     split; [left; reflexivity|].
@@ -652,14 +678,16 @@ Proof.
     destruct Hm1 as [Hs Hn]. rewrite Hs, Hn. repeat split; [lia|congruence|].
     rewrite lookup_del, Z.eqb_refl. reflexivity.
   - exists (i_nextAccept m). unfold in_accept in E.
+    destruct (in_accept_core m) as [[m0 r0] fr0] eqn:C. inj3 E. subst r0 fr0 m'. simp_in.
+    rename C into E. unfold in_accept_core in E.
     destruct (i_closed m); [inj3 E; congruence|].
     destruct (lookup (i_nextAccept m) (i_streams m)) as [sd|] eqn:L; [|inj3 E; congruence].
     destruct sd; [|inj3 E; congruence].
-    set (m1 := mkIn _ _ _ _ _ _ _) in E.
+    set (m1 := mkIn _ _ _ _ _ _ _ _) in E.
     destruct (in_delete_inner m1 (i_nextAccept m)) as [[m2 ok] fr2] eqn:D.
     pose proof (in_delete_inner_ok m1 (i_nextAccept m)) as K. rewrite D in K. cbn [fst snd] in K.
     assert (ok = true) by (apply K; unfold m1; simp_in; [congruence|lia]). subst ok.
-    inj3 E; subst m' r fr. split; [right; split; reflexivity|].
+    inj3 E; subst m0 r fr. split; [right; split; [exists c; reflexivity|reflexivity]|].
     unfold in_delete_inner in D. unfold m1 in D at 1. simp_in_all. rewrite L in D.
     destruct (Z.leb_spec (i_nextAccept m1) (i_nextAccept m)); [unfold m1 in *; simp_in_all; lia|].
     assert (Hm1 : i_streams m2 = del (i_nextAccept m) (i_streams m1) /\ i_nextAccept m2 = i_nextAccept m1).
@@ -667,6 +695,7 @@ Proof.
         inj3 D; subst m2; split; reflexivity. }
     destruct Hm1 as [Hs Hn]. rewrite Hs, Hn. unfold m1; simp_in. repeat split; [lia|congruence|].
     rewrite lookup_del, Z.eqb_refl. reflexivity.
+  - unfold in_accept_cancel in E. destruct (zmem c (i_parked m)); inj3 E; congruence.
   - inj3 E. congruence.
 Qed.
 
@@ -681,13 +710,13 @@ Definition in_facts (f : Z) (m : inmap) : Prop :=
   (* MAX_STREAMS only when an accepted stream leaves the map; strictly larger than before; <= 2^60 *)
   (forall op m' r fr, iop_ok f op -> istep m op = (m', r, fr) -> fr <> [] ->
      zlen (i_streams m') = zlen (i_streams m) - 1 /\
-     (exists id, (op = IDelete id \/ op = IAccept /\ r = RId id) /\ id < i_nextAccept m' /\
+     (exists id, (op = IDelete id \/ (exists c, op = IAccept c) /\ r = RId id) /\ id < i_nextAccept m' /\
                  lookup id (i_streams m) <> None /\ lookup id (i_streams m') = None) /\
      exists n, fr = [FMax (i_uni m) n] /\ in_adv m < n /\ n = in_adv m' /\ n <= SM_MaxStreamCount) /\
   (* the advertised limit never decreases *)
   (forall op m' r fr, iop_ok f op -> istep m op = (m', r, fr) -> in_adv m <= in_adv m') /\
   (* a stream that is opened and not yet accepted is returned by the next Accept *)
-  (i_closed m = None -> i_nextAccept m < i_nextOpen m -> snd (fst (in_accept m)) = RId (i_nextAccept m)).
+  (i_closed m = None -> i_nextAccept m < i_nextOpen m -> forall c, snd (fst (in_accept m c)) = RId (i_nextAccept m)).
 
 Lemma in_facts_inv : forall f N m, 0 <= f <= 3 -> inv_in f N m -> in_facts f m.
 Proof.
@@ -708,4 +737,37 @@ Theorem in_reach_facts : forall uni client N m, 0 <= N -> ireach uni client N m 
 Proof.
   intros uni client N m HN R. destruct (ireach_inv _ _ _ _ HN R) as [Inv Hu].
   split; [|exact Hu]. eapply in_facts_inv; eauto using first_incoming_range.
+Qed.
+
+(** ** Any number of concurrent AcceptStream callers
+    [IAccept c] carries the caller; a history may interleave calls and wake-ups of arbitrarily many
+    callers (parked ones are in [i_parked]).  Who got which stream: *)
+Fixpoint accepted_by (ops : list iop) (outs : list (res * list frame)) : list (Z * Z) :=
+  match ops, outs with
+  | op :: ops', (r, _) :: outs' =>
+    (match op, r with IAccept c, RId id => [(c, id)] | _, _ => [] end) ++ accepted_by ops' outs'
+  | _, _ => []
+  end.
+
+Lemma accepted_by_ids : forall ops outs, map snd (accepted_by ops outs) = accepted ops outs.
+Proof.
+  induction ops as [|op ops IH]; intros outs; [reflexivity|].
+  destruct outs as [|[r fr] outs]; [reflexivity|]. cbn [accepted_by accepted].
+  rewrite map_app, IH. f_equal. destruct op, r; reflexivity.
+Qed.
+
+(** whatever the callers and the interleaving: the streams handed out, in the order of the
+    critical sections, are first, first+4, ... (so no stream goes to two callers, none is skipped) *)
+Theorem in_accept_concurrent : forall uni client N ops m outs, 0 <= N ->
+  Forall (iop_ok (first_incoming uni client)) ops ->
+  irun (init_in uni client N) ops = (m, outs) ->
+  map snd (accepted_by ops outs) =
+    ids_from (first_incoming uni client) (length (accepted_by ops outs)) /\
+  NoDup (map snd (accepted_by ops outs)).
+Proof.
+  intros uni client N ops m outs HN Hok E.
+  destruct (in_accept_order _ _ _ _ _ _ HN Hok E) as [H _].
+  assert (L : length (accepted_by ops outs) = length (accepted ops outs)).
+  { rewrite <- (accepted_by_ids ops outs), map_length. reflexivity. }
+  rewrite L, accepted_by_ids. split; [exact H|]. rewrite H. apply ids_from_NoDup.
 Qed.
